@@ -9,7 +9,7 @@ import z3
 
 from .core import (Sym, OutsideSubset, EngineError, PyRaise, ExcVal, py_raise, binop, unop, compare, wrap, to_z3,
                    And, Or, Not, Eq, If)
-from .values import Obj, Extern, GuardedList, SymSet, SymMap, MapBox, SymArr, ModelValue
+from .values import Obj, Extern, GuardedList, SymSet, SymMap, MapBox, SymArr, ModelValue, FlexDict, unflex
 from . import strings
 
 
@@ -68,6 +68,7 @@ def _as_bool(v):
 
 def contains(it, container, x):
     c = it.ctx
+    container = unflex(container)
     if isinstance(container, GuardedList):
         return container.contains(x)
     if isinstance(container, SymSet):
@@ -105,6 +106,7 @@ def contains(it, container, x):
 # ------------------------------------------------------------------------------ subscripts
 def getitem(it, o, k):
     c = it.ctx
+    o = unflex(o)
     if isinstance(o, dict):
         if isinstance(k, Sym):
             for key in list(o.keys()):
@@ -165,6 +167,11 @@ def getitem(it, o, k):
 
 def setitem(it, o, k, v):
     c = it.ctx
+    o = unflex(o)
+    if isinstance(o, FlexDict) and isinstance(k, Sym):
+        o = o.to_sym()
+        if o.m is None:
+            o.m = SymMap.empty(k.e.sort(), to_z3(v).sort())
     if isinstance(o, dict):
         if isinstance(k, Sym):
             for key in list(o.keys()):
@@ -198,6 +205,7 @@ def setitem(it, o, k, v):
 
 def delitem(it, o, k):
     c = it.ctx
+    o = unflex(o)
     if isinstance(o, dict):
         if isinstance(k, Sym):
             for key in list(o.keys()):
@@ -224,6 +232,14 @@ def delitem(it, o, k):
 # ------------------------------------------------------------------------------ methods
 def call_method(it, obj, name, args, kwargs):
     c = it.ctx
+    obj = unflex(obj)
+    args = [unflex(a) for a in args]
+    if isinstance(obj, FlexDict) and name == 'update' and args and isinstance(args[0], MapBox):
+        box = obj.to_sym()
+        if box.m is None:
+            box.m = args[0].m.copy()
+            return None
+        obj = box
     if isinstance(obj, dict):
         return _dict_method(it, obj, name, args, kwargs)
     if isinstance(obj, list):
@@ -263,7 +279,9 @@ def _dict_method(it, d, name, args, kwargs):
                     return d[key]
             return default
         return _native(d.get, k, default)
-    if name in ('keys', 'values', 'items', 'copy', 'clear', 'popitem'):
+    if name == 'copy':
+        return FlexDict(d)
+    if name in ('keys', 'values', 'items', 'clear', 'popitem'):
         r = getattr(d, name)(*args)
         return list(r) if name in ('keys', 'values', 'items') else r
     if name == 'update':
@@ -271,7 +289,7 @@ def _dict_method(it, d, name, args, kwargs):
             if isinstance(a, dict):
                 d.update(a)
             elif isinstance(a, MapBox):
-                raise OutsideSubset("python dict updated with symbolic map")
+                raise OutsideSubset("python dict (not created by the interpreted code) updated with symbolic map")
             else:
                 for k, v in it.iterate(a):
                     d[k] = v
@@ -369,6 +387,8 @@ def _map_method(it, box, name, args, kwargs):
         raise OutsideSubset("map.update(%s)" % type(other).__name__)
     if name == 'copy':
         return MapBox(m.copy())
+    if name in ('keys', 'items', 'values'):
+        raise OutsideSubset("iteration over a symbolic map outside a comprehension")
     if name == 'pop':
         if c.branch(m.has(args[0])):
             v = m.at(args[0])
@@ -384,6 +404,16 @@ def _map_method(it, box, name, args, kwargs):
 
 def _symstr_method(it, s, name, args, kwargs):
     c = it.ctx
+    if name == 'split' and len(args) == 1 and isinstance(args[0], str):
+        cands = [(j, p) for j, sp, p in c.split_registry if sp == args[0]]
+        # prefer a registered structure that the path condition ENTAILS (no fork, no word equations)
+        for joined, parts in cands:
+            if z3.eq(z3.simplify(s.e), z3.simplify(joined)) or not c.feasible(s.e != joined):
+                return list(parts)
+        for joined, parts in cands:
+            if c.branch(wrap(s.e == joined)):
+                return list(parts)
+        raise OutsideSubset("split of a symbolic string with no registered structure")
     if name == 'startswith' and len(args) == 1:
         a = args[0]
         if isinstance(a, tuple):
@@ -596,7 +626,7 @@ def b_tuple(it, v=()):
 
 
 def b_dict(it, *args, **kwargs):
-    d = {}
+    d = FlexDict()
     for a in args:
         if isinstance(a, dict):
             d.update(a)
@@ -718,8 +748,10 @@ def b_deepcopy(it, v, memo=None):
         return [b_deepcopy(it, x) for x in v]
     if isinstance(v, tuple):
         return tuple(b_deepcopy(it, x) for x in v)
+    if isinstance(v, FlexDict) and v.sym is not None:
+        return MapBox(v.sym.m.copy())
     if isinstance(v, dict):
-        return {k: b_deepcopy(it, x) for k, x in v.items()}
+        return FlexDict({k: b_deepcopy(it, x) for k, x in v.items()})
     if isinstance(v, MapBox):
         return MapBox(v.m.copy())
     if isinstance(v, GuardedList):
